@@ -72,6 +72,7 @@ for (a, nu, ln) in ((0, 0, 0), (1, 1, 2), (2, 1, 0), (1, 2, 1)):
 A(E("q", "hev1_a1_n1x2", "Hev1Box", "any_hev1::<1, 1, 2>()", "ref_hev1", 8 + 78 + 8 + 23 + 3 + 4, 34, "|i: usize| if i >= 86 { hvcc_reserved_mask(i - 86) } else { 0u8 }"))
 A(E("q", "esds", "EsdsBox", "any_esds()", "ref_esds", 39, 6))
 A(E("q", "mp4a_esds", "Mp4aBox", "any_mp4a(true)", "ref_mp4a", 36 + 39, 6))
+C04_EXCLUDE = ("esds", "mp4a_esds")  # decode with a symbolic AudioSpecificConfig does not finish (see common/boxes.rs any_esds_asc): C05 enc + C05 dec compose to the round trip
 A(E("q", "mp4a_noesds", "Mp4aBox", "any_mp4a(false)", "ref_mp4a", 36, 6))
 
 
